@@ -107,6 +107,51 @@ def Normal.sampleN : Nat → Normal α → List α → Option (List α × Normal
       | none => none
       | some (xs, n'', s'') => some (x :: xs, n'', s'')
 
+/-! #### user-written special members of NormalDistribution (cached spare value)
+The copy constructor (`mean_{other.mean}, stddev_{other.stddev}`) names members that do not exist
+and cannot be instantiated; it is therefore not modelled (see the check's compile probe). -/
+
+/-- move constructor: parameters and spare value taken over, `other.has_spare_ = false`;
+    returns (new object, moved-from object) -/
+def Normal.moveCtor (other : Normal α) : Normal α × Normal α :=
+  (⟨other.mean, other.stddev, other.spare⟩, { other with spare := none })
+
+/-- copy assignment `dst = src`: "keep spare value but change distribution" -/
+def Normal.copyAssign (dst src : Normal α) : Normal α :=
+  { dst with mean := src.mean, stddev := src.stddev }
+
+/-- move assignment `dst = std::move(src)`: parameters copied; the source's spare value is taken
+    only if `dst` has none; returns (dst, src) -/
+def Normal.moveAssign (dst src : Normal α) : Normal α × Normal α :=
+  let d : Normal α := { dst with mean := src.mean, stddev := src.stddev }
+  match dst.spare, src.spare with
+  | none, some sp => ({ d with spare := some sp }, { src with spare := none })
+  | _, _ => (d, src)
+
+/-- harness op `normop`: `pre1`/`pre2` samples from a and b, then the special member `kind`
+    (1 move-construct c from a, 2 copy-assign a = b, 3 move-assign a = move(b)), then `k`
+    samples from the first and `k` from the second resulting object -/
+def Normal.specialOp (kind pre1 pre2 k : Nat) (a b : Normal α) (s : List α) :
+    Option (List α × List α) :=
+  match Normal.sampleN pre1 a s with
+  | none => none
+  | some (xs1, a1, s1) =>
+    match Normal.sampleN pre2 b1 s1 with
+    | none => none
+    | some (xs2, b2, s2) =>
+      let (p, q) :=
+        match kind with
+        | 1 => Normal.moveCtor a1
+        | 2 => (Normal.copyAssign a1 b2, b2)
+        | _ => Normal.moveAssign a1 b2
+      match Normal.sampleN k p s2 with
+      | none => none
+      | some (xs3, _, s3) =>
+        match Normal.sampleN k q s3 with
+        | none => none
+        | some (xs4, _, s4) => some (xs1 ++ xs2 ++ xs3 ++ xs4, s4)
+where b1 := b
+
 /-! ### GammaDistribution (Marsaglia–Tsang) -/
 structure Gamma (α : Type) where
   alpha : α
